@@ -80,7 +80,7 @@ def script_header(kind):
     toks = SK[kind].split()
     words = sorted(set(t for t in toks if t not in TYPES) | set(EXTRA[kind]))
     out = ["#define FILEKIND %d" % KINDNO[kind], "#include <yaml.h>",
-           "const int verif_yaml_types[%d] = {%s};" % (len(toks), ", ".join(TYPES.get(t, "YAML_SCALAR_EVENT") for t in toks)),
+           "int verif_yaml_types[%d] = {%s};" % (len(toks), ", ".join(TYPES.get(t, "YAML_SCALAR_EVENT") for t in toks)),
            "const int verif_yaml_script_n = %d;" % len(toks),
            "static const char *const script_words[%d] = {%s};" % (len(toks), ", ".join('"%s"' % t if t not in TYPES else '""' for t in toks)),
            "static const char *const dict[] = {%s};" % ", ".join('"%s"' % w for w in words)]
